@@ -51,8 +51,8 @@ PROFILES = {
                 sift_tiny=True),
     'C08': dict(weights=_w(apply=8, fop=10, drop=14, dup=5, traverse=8,
                            gc=5, reorder=3, finalize=4, arm_final=4,
-                           configure=1, arm=2, quant=2, let=2),
-                flavors=['autoref'], nv=(2, 7), steps=(20, 140), copy_copy=0.1,
+                           configure=1, arm=2, quant=2, let=2, dump=1, load=2),
+                flavors=['autoref'], nv=(2, 7), steps=(20, 140), copy_copy=0.1, disk_faults=0.3,
                 line_mode=dict(quick=0.1, thorough=0.15)),
     'C09': dict(weights=_w(apply=12, ite=4, fop=4, quant=5, let=6, cube=3,
                            var=6, find_or_add=2, add_expr=4, drop=5, gc=1,
@@ -80,8 +80,8 @@ PROFILES = {
                 flavors=['raw'], nv=(1, 6), steps=(20, 90)),
     'C16': dict(weights=_w(dddmp=10, apply=10, swap=4, declare=1, gc=1),
                 flavors=['raw'], nv=(1, 5), steps=(15, 60)),
-    'C17': dict(weights=_w(reject=16, apply=8, add_expr=3, load=4, dump=3, gc=3,
-                           swap=2, reorder=1, declare=1, drop=5, arm=0,
+    'C17': dict(weights=_w(reject=18, apply=8, add_expr=3, load=4, dump=3, gc=3,
+                           swap=2, reorder=1, declare=2, drop=5, arm=0,
                            configure=0),
                 flavors=['raw', 'autoref'], nv=(1, 6), steps=(20, 100),
                 m1_rate=0.2, disk_faults=0.9, dyn_rate=0.35, spare_rate=0.5,
